@@ -204,3 +204,117 @@ theorem resolve_noRef (fuel : Nat) (pre : List Rule) (att : List (List Char)) (p
                resolveList_noRef p2 fuel att a2 ha⟩
 
 end Aa
+
+namespace Aa
+
+/-! ### the fuel is not part of the answer -/
+
+theorem foldlM_congr_ok {ε α β : Type} (f g : β → α → Except ε β) :
+    ∀ (l : List α) (b res : β), (∀ b a r, a ∈ l → f b a = .ok r → g b a = .ok r) →
+      l.foldlM f b = .ok res → l.foldlM g b = .ok res
+  | [], b, res, _, h => h
+  | a :: as, b, res, hfg, h => by
+    simp only [List.foldlM_cons, bind, Except.bind] at h ⊢
+    cases hfa : f b a with
+    | error e => rw [hfa] at h; cases h
+    | ok b' =>
+      rw [hfa] at h
+      rw [hfg b a b' (by simp) hfa]
+      exact foldlM_congr_ok f g as b' res (fun b a r ha => hfg b a r (by simp [ha])) h
+
+/-- **More fuel never changes a successful answer**: the fuel only bounds the recursion of the model;
+once `resolveValues` succeeds, every larger amount gives the same list. -/
+theorem resolveValues_fuel_mono (vars : List Rule) : ∀ (fuel : Nat) (input : List Char) (out : List (List Char)),
+    resolveValues vars fuel input = .ok out → resolveValues vars (fuel + 1) input = .ok out
+  | 0, _, _, h => by simp [resolveValues] at h
+  | fuel + 1, input, out, h => by
+    unfold resolveValues at h ⊢
+    by_cases hi : isInfixB tokOpen input = true
+    · simp only [hi, Bool.not_true, Bool.false_eq_true, if_false] at h ⊢
+      cases hr : firstRef input with
+      | none => rw [hr] at h; cases h
+      | some nm =>
+        rw [hr] at h
+        simp only at h ⊢
+        split at h
+        · cases h
+        · rename_i hd
+          rw [if_neg hd]
+          refine foldlM_congr_ok _ _ _ [] out ?_ h
+          intro acc v r _ hstep
+          refine foldlM_congr_ok _ _ _ acc r ?_ hstep
+          intro a val r' _ hs
+          split at hs
+          · cases hs
+          · rename_i hrec
+            rw [if_neg hrec]
+            simp only [bind, Except.bind] at hs ⊢
+            split at hs
+            · cases hs
+            · rename_i res hres
+              rw [resolveValues_fuel_mono vars fuel _ res hres]
+              exact hs
+    · have hi' : isInfixB tokOpen input = false := by simpa using hi
+      simp only [hi', Bool.not_false, if_true] at h ⊢
+      exact h
+
+theorem resolveValues_fuel_le (vars : List Rule) (input : List Char) (out : List (List Char)) (n : Nat)
+    (h : resolveValues vars n input = .ok out) : ∀ m, n ≤ m → resolveValues vars m input = .ok out := by
+  intro m hm
+  induction hm with
+  | refl => exact h
+  | step _ ih => exact resolveValues_fuel_mono vars _ input out ih
+
+end Aa
+
+namespace Aa
+
+theorem resolveList_fuel_mono (vars : List Rule) (fuel : Nat) (l out : List (List Char))
+    (h : resolveList vars fuel l = .ok out) : resolveList vars (fuel + 1) l = .ok out := by
+  unfold resolveList at h ⊢
+  refine foldlM_congr_ok _ _ l [] out ?_ h
+  intro acc v r _ hs
+  simp only [bind, Except.bind] at hs ⊢
+  split at hs
+  · cases hs
+  · rename_i res hres
+    rw [resolveValues_fuel_mono vars fuel v res hres]
+    exact hs
+
+theorem resolveVars_fuel_mono (fuel : Nat) : ∀ (rs done res : List Rule),
+    resolveVars fuel done rs = .ok res → resolveVars (fuel + 1) done rs = .ok res
+  | [], done, res, h => by simpa [resolveVars] using h
+  | r :: rs, done, res, h => by
+    unfold resolveVars at h ⊢
+    by_cases hv : isVar r = true
+    · simp only [hv, if_true, bind, Except.bind] at h ⊢
+      split at h
+      · cases h
+      · rename_i vals hvals
+        rw [resolveList_fuel_mono _ fuel _ vals hvals]
+        exact resolveVars_fuel_mono fuel rs _ res h
+    · have hv' : isVar r = false := by simpa using hv
+      simp only [hv', Bool.false_eq_true, if_false] at h ⊢
+      exact resolveVars_fuel_mono fuel rs _ res h
+
+/-- **The answer of `Resolve` does not depend on the fuel** once it is enough: the fuel is an artefact of
+the model (the Go function recurses without a bound), not part of the behaviour. -/
+theorem resolve_fuel_mono (fuel : Nat) (pre : List Rule) (att : List (List Char)) (res : List Rule × List (List Char))
+    (h : resolve fuel pre att = .ok res) : resolve (fuel + 1) pre att = .ok res := by
+  unfold resolve at h ⊢
+  simp only [bind, Except.bind] at h ⊢
+  split at h
+  · cases h
+  · rename_i folded hf
+    split at h
+    · cases h
+    · rename_i p2 hp
+      rw [resolveVars_fuel_mono fuel folded [] p2 hp]
+      simp only
+      split at h
+      · cases h
+      · rename_i a2 ha
+        rw [resolveList_fuel_mono p2 fuel att a2 ha]
+        exact h
+
+end Aa
